@@ -91,6 +91,9 @@ package ws
 //@   modifies @wsst(w)
 // (C10: 'unpair disconnects' ends here - the hub's CloseConnection reaches the transport through this function, and
 // closed means released: the object invariant T2)
+// A writer can be parked on the full queue while it holds muxShipWrite; what releases it is the write pump taking a
+// frame or the close channel being closed. Neither the pump nor any closing path may therefore wait for muxShipWrite
+//@ lockfree [C12] WebsocketConnection.muxShipWrite in (*ws.WebsocketConnection).writeShipPump, (*ws.WebsocketConnection).close, (*ws.WebsocketConnection).closeWithError, (*ws.WebsocketConnection).CloseDataConnection, (*ws.WebsocketConnection).readShipPump
 // the SHIP layer's view of its data writer (api: ghost attribute $wsClosed) is this connection's closed flag: the two
 // interface clauses the SHIP layer relies on are proved for this implementation, not assumed
 //@ ghostdef (w *WebsocketConnection).$wsClosed := w.connectionClosed
